@@ -8,6 +8,7 @@
 ; ----- byte strings (abstract sequences of bytes) -----
 (declare-sort BStr 0)
 (declare-const bempty BStr)
+(declare-fun chancap (Int) Int)        ; buffer size of a channel (fixed at make)
 (declare-fun cat (BStr BStr) BStr)
 (declare-fun single (Int) BStr)          ; one byte
 (declare-fun blen (BStr) Int)
